@@ -112,7 +112,13 @@ def runHistory (pk : PublicKey) (sk : PrivateKey) (nu0 : Int) (time0 : Int) (ste
       match h.updates.lookup uid with
       | none => throw "unknown update"
       | some u =>
-        let evs := (h.events.drop lo).take (hi + 1 - lo)
+        let evs0 := (h.events.drop lo).take (hi + 1 - lo)
+        -- "tamper": one value of the chunk altered (the hashes no longer link)
+        let evs := match (getNat st "tamper").toOption with
+          | some k => if evs0.length > 0 then
+              evs0.mapIdx fun i e => if i = k % evs0.length then { e with e := e.e + 2 } else e
+            else evs0
+          | none => evs0
         match u.prepend evs with
         | some u' =>
           h := { h with updates := (uid, u') :: h.updates.filter (·.1 ≠ uid) }
